@@ -94,8 +94,9 @@ def run_oracle(s, budget_ops=200000):
             return None, stats          # the generated program does not terminate: nothing to compare
         if r["exc"]:
             return "command %d (%s): the debugger raised %s" % (i, line, r["exc"]), stats
-        out += r["out"]
-        err += r["err"]
+        if term != "CNop":
+            out += r["out"]         # asm / dis print their result on stdout: not the program's output
+            err += r["err"]
         try:
             tr.apply(line, term, limit)
         except rc.Budget:
